@@ -48,7 +48,12 @@ func (o sopT) text() string {
 	panic("bad op")
 }
 
-func applySop(s *session.MemorySession, o sopT) string {
+func applySop(s *session.MemorySession, o sopT) (res string) {
+	defer func() {
+		if x := recover(); x != nil {
+			res = "panic"
+		}
+	}()
 	switch o.kind {
 	case 'N':
 		return fmt.Sprintf("id=%d", s.NextID())
@@ -165,6 +170,9 @@ func c18Replay(c *hx.Ctx) {
 			if len(f) > 2 && strings.HasPrefix(f[2], "start=") {
 				c18Window(c, hx.Atoi(f[2][6:]))
 			}
+			if len(f) > 3 && strings.HasPrefix(f[2], "session=") && strings.HasPrefix(f[3], "after=") {
+				c18SessionWindow(c, hx.Atoi(f[2][8:]), hx.Atoi(f[3][6:]))
+			}
 		case "hist":
 			s := session.NewMemorySession()
 			var rt []string
@@ -174,6 +182,36 @@ func c18Replay(c *hx.Ctx) {
 			c.Emit("%s", line)
 			c.Emit("impl %s %s", f[1], strings.Join(rt, " "))
 		}
+	}
+}
+
+// c18SessionWindow: after k allocations, outgoing packets are stored under the next ids and at the ends of the id
+// space; then one full trip round the id space and a bit: no id is zero, none repeats within 65535 allocations.
+func c18SessionWindow(c *hx.Ctx, w, k int) {
+	s := session.NewMemorySession()
+	for i := 0; i < k; i++ {
+		s.NextID()
+	}
+	inflight := []int{k + 1, k + 2, k + 4, 1, 2, 65535, 65534}
+	for _, id := range inflight {
+		id = (id-1)%65535 + 1
+		_ = s.SavePacket(session.Outgoing, &packet.Publish{ID: packet.ID(id), Message: packet.Message{Topic: "t", QOS: 1}})
+	}
+	last := map[packet.ID]int{}
+	bad := ""
+	for i := 0; i < 65535+300 && bad == ""; i++ {
+		id := s.NextID()
+		if id == 0 {
+			bad = fmt.Sprintf("allocation %d returned id 0", i+1)
+		} else if j, ok := last[id]; ok && i-j < 65535 {
+			bad = fmt.Sprintf("id %d returned by allocation %d and again by allocation %d", id, j+1, i+1)
+		}
+		last[id] = i
+	}
+	if bad != "" {
+		c.Emit("direct counter_window session=%d after=%d inflight=%v FAIL %s", w, k, inflight, bad)
+	} else {
+		c.Emit("direct counter_window session=%d after=%d inflight=%v ok 65835 allocations through MemorySession.NextID, none zero, none repeated within 65535", w, k, inflight)
 	}
 }
 
@@ -191,6 +229,12 @@ func runC18(c *hx.Ctx) {
 		c18Window(c, s)
 	}
 	c.Stat("direct_windows", len(starts))
+	// the same clauses through the session API with packets in flight: ids come from MemorySession.NextID while
+	// outgoing packets are stored at and around the ids about to be handed out (a session may consult its store)
+	for w, k := range []int{0, 1, 7, 65530, 65533, 65534} {
+		c18SessionWindow(c, w, k)
+	}
+	c.Stat("direct_windows", 6)
 	// T-exh: every one of the 65536 counter states
 	for s := 0; s < 65536; s++ {
 		ctr := session.NewIDCounterWithNext(packet.ID(s))
